@@ -45,12 +45,12 @@ class Counting(object):
         return self.fn(*a)
 
 
-def make_document(rng, kind, nsent):
+def make_document(rng, kind, nsent, twins=False):
     """-> dict(doc, scores, cats, roots, bin, un, kwargs, expect_fail)"""
     from depccg.types import Token, ScoringResult
     from depccg.cat import Category
     if kind == 'synthetic':
-        g = pf.synthetic_grammar(rng, rng.choice('LR'))
+        g = pf.synthetic_grammar(rng, rng.choice('LR'), twins=twins)
         tg = pf.TableGrammar(g['B'], g['U'])
         fb, fu = tg.binary, tg.unary
         lex, roots = g['lex'], g['roots']
@@ -141,7 +141,7 @@ def run(tier):
     for d in range(ndocs):
         kind = ['synthetic', 'en', 'ja'][d % 3]
         nsent = 26 if d % 2 == 0 else 8
-        D = make_document(rng, kind, nsent)
+        D = make_document(rng, kind, nsent, twins=(d % 6 == 0))          # every other synthetic document
         add({'e': 'doc', 'g': d + 1}, {'doc': d, 'kind': kind})
         solos = []
         for i in range(nsent):
